@@ -301,6 +301,11 @@ def run(chk):
     r5.ob("process_unicode: no further range arms (code points from 0x200000 are rejected)", not extra, g.where, g["q"], "unexpected thresholds %s" % [hex(x) for x in extra])
     r5.require(5, "encoding arms")
 
+    # ------------------------------------------------------------------ R16.6 digit classes
+    r6 = chk.rule("R16.6", "the escape decoder classifies characters exactly: octal digits are 0-7, hexadecimal digits are 0-9 a-f A-F (the class predicates are evaluated over all 256 character values)",
+                  "octal and hex escapes contain exactly the digits C++ would take; the next character is not swallowed")
+    digit_class_obligations(chk, r6, prog)
+
 
 # =============================================================================== helpers
 
@@ -446,3 +451,91 @@ def num_bases(prog, g):
                 key = "leading0"
             out[key] = (base, bool(pref))
     return out
+
+
+# ------------------------------------------------------------------ digit classes of the escape decoder (C16 R16.6, C01 R1.4)
+CTYPE = {"isdigit": lambda c: 48 <= c <= 57, "isxdigit": lambda c: (48 <= c <= 57) or (65 <= c <= 70) or (97 <= c <= 102),
+         "isalpha": lambda c: (65 <= c <= 90) or (97 <= c <= 122), "isalnum": lambda c: (48 <= c <= 57) or (65 <= c <= 90) or (97 <= c <= 122),
+         "isupper": lambda c: 65 <= c <= 90, "islower": lambda c: 97 <= c <= 122}
+
+
+def eval_char_pred(prog, f, e, env):
+    """value of a predicate / small integer expression over one character variable (env: vid -> int)"""
+    e = strip_casts(e)
+    k = e.get("k")
+    if k == "lit":
+        v = e.get("v")
+        if e.get("lt") == "char":
+            v = v & 0xFF
+            return v - 256 if v > 127 else v
+        return v
+    if k == "ref":
+        if e.get("vid") in env:
+            return env[e["vid"]]
+        from ..paths import ref_inits
+        v = ref_inits(f).get(e.get("vid"))
+        if v is not None and v.get("init") is not None:
+            return eval_char_pred(prog, f, v["init"], env)
+        raise AnalysisBroken("C16 R16.6: unknown variable %s in a digit-class predicate" % e.get("name"))
+    if k == "cast":
+        v = eval_char_pred(prog, f, e["e"], env)
+        t = prog.T(f, e.get("t"))
+        if t.replace("const ", "") == "unsigned char" and isinstance(v, int):
+            return v & 0xFF
+        return v
+    if k == "unop" and e.get("op") == "!":
+        return not eval_char_pred(prog, f, e["e"], env)
+    if k == "binop":
+        op = e["op"]
+        if op == "&&":
+            return bool(eval_char_pred(prog, f, e["lhs"], env)) and bool(eval_char_pred(prog, f, e["rhs"], env))
+        if op == "||":
+            return bool(eval_char_pred(prog, f, e["lhs"], env)) or bool(eval_char_pred(prog, f, e["rhs"], env))
+        a, b = eval_char_pred(prog, f, e["lhs"], env), eval_char_pred(prog, f, e["rhs"], env)
+        return {"<": a < b, "<=": a <= b, ">": a > b, ">=": a >= b, "==": a == b, "!=": a != b}.get(op, None) if op in ("<", "<=", ">", ">=", "==", "!=") else (
+            a - b if op == "-" else (a + b if op == "+" else None))
+    if k == "call" and e.get("name") in CTYPE and e.get("args"):
+        c = eval_char_pred(prog, f, e["args"][0], env)
+        if not isinstance(c, int) or c < 0 or c > 255:
+            return False
+        return CTYPE[e["name"]](c)
+    raise AnalysisBroken("C16 R16.6: unrecognised form in a digit-class predicate: %s" % expr_str(prog, f, e)[:80])
+
+
+def digit_class_obligations(chk, rule, prog):
+    """the characters the escape decoder appends to its octal / hexadecimal digit buffers are exactly the digits of that base"""
+    ps = [g for g in prog.fns if g["name"] == "parse" and "Char_Parser" in (g.get("cls") or "") and g["tk"] == "inst" and len(g["params"]) == 4]
+    rule.anchor(ps, "Char_Parser::parse")
+    g = ps[0]
+    chk.touched(ps[:1])
+    flow = FnFlow(g)
+    tvid = g["params"][0]["vid"]
+    want = {"octal_matches": set(range(48, 56)), "hex_matches": set(range(48, 58)) | set(range(65, 71)) | set(range(97, 103))}
+    seen = set()
+    for n in walk(g["body"]):
+        if n.get("k") == "call" and n.get("name") == "push_back" and n.get("obj") is not None and strip_casts(n["obj"]).get("name") in want and n.get("args") and \
+                strip_casts(n["args"][0]).get("vid") == tvid:
+            buf = strip_casts(n["obj"])["name"]
+            # the innermost dominating fact that is a class test on the character
+            preds = [(c, t) for c, t in flow.facts(n) if t and any(x.get("k") == "ref" and x.get("rk") in ("local",) for x in walk(c)) and
+                     not any(x.get("k") == "member" for x in walk(c))]
+            accepted = None
+            for c, t in preds[:1]:
+                accepted = set()
+                for ch in range(-128, 128):
+                    try:
+                        if eval_char_pred(prog, g, c, {tvid: ch}):
+                            accepted.add(ch & 0xFF)
+                    except AnalysisBroken:
+                        raise
+            key = (buf, frozenset(accepted or []))
+            if key in seen:
+                continue
+            seen.add(key)
+            extra = sorted((accepted or set()) - want[buf])
+            missing = sorted(want[buf] - (accepted or set()))
+            rule.ob("Char_Parser::parse appends to %s exactly the %s digits" % (buf, "octal" if buf.startswith("octal") else "hexadecimal"),
+                    accepted is not None and not extra and not missing, "%s:%d" % (g["file"], n["l"]), g["q"],
+                    "the class test admits %s and misses %s: a non-digit of that base reaches std::stoll/stoul (dropped silently or std::invalid_argument out of the parser)" % (
+                        [chr(x) if 32 <= x < 127 else hex(x) for x in extra][:12], [chr(x) for x in missing][:12]))
+    rule.anchor(len(seen) >= 2, "digit buffers filled in Char_Parser::parse (found %s)" % sorted(k[0] for k in seen))
